@@ -237,6 +237,7 @@ var fontList = []fontSpec{
 	{"opentype/common/Lmmono-italic.otf", "cff", ""},
 	{"opentype/toys/CFFTest.otf", "cff", ""},
 	{"opentype/toys/CFF2-VF.otf", "cff2-variable", ""},
+	{"opentype/common/NotoSansCJKjp-VF.otf", "cff2-variable", ""}, // the only CFF2 font with a non-empty variation store
 	{"opentype/common/Commissioner-VF.ttf", "variable", ""},
 	{"opentype/common/Selawik-VF.ttf", "variable", ""},
 	{"opentype/common/SourceSans-VF-HVAR.ttf", "variable", ""},
